@@ -5,7 +5,7 @@
 From Coq Require Import ZArith List Bool Ascii String Floats Uint63.
 From Hermes Require Import Num DateModel CropParamModel OverrideModel.
 Import ListNotations.
-Open Scope Z_scope.
+Local Open Scope Z_scope.
 
 (* ---- transport: the bytes of a file packed 7 per primitive integer (little endian), preceded by
    the byte count; an edited file as (base file, line index, new line) ---- *)
